@@ -196,6 +196,25 @@ func Verif_KRL() {
 	assertLookups(idx, ents, "pre")
 	vrt.Cover("krl-pre-state-valid")
 
+	var removed []byte
+	absentStaysAbsent := func(where string) {
+		if removed == nil {
+			return
+		}
+		loc, found, err := idx.Get(removed)
+		vrt.Assert(err == nil, "get-removed-no-error", "where", where)
+		if found {
+			// the index may answer with another key's location (prefix match), never with
+			// the removed key's own
+			hit := false
+			for j := range ents {
+				if ents[j].loc == loc {
+					hit = true
+				}
+			}
+			vrt.Assert(hit, "removed-key-nothing-or-other-keys-location", "where", where)
+		}
+	}
 	switch vrt.Choose("op", 6) {
 	case 0: // Put of a new key
 		k := mkKey("newkey")
@@ -243,6 +262,7 @@ func Verif_KRL() {
 		ok, err := idx.Remove(ents[i].key)
 		vrt.Assert(err == nil, "remove-no-error")
 		vrt.Assert(ok, "remove-present-key-reports-true")
+		removed = ents[i].key
 		ents = append(append([]rlEntry{}, ents[:i]...), ents[i+1:]...)
 		vrt.Cover("krl-remove")
 	case 4: // Get of an absent key
@@ -270,10 +290,12 @@ func Verif_KRL() {
 	}
 	assertInvariantI(idx, bucket, ents, strip, "post")
 	assertLookups(idx, ents, "post")
+	absentStaysAbsent("post")
 	// and the same after the list has moved to disk
 	_, err = idx.Flush()
 	vrt.Assert(err == nil, "flush-no-error")
 	idx.curPool = nil
 	assertLookups(idx, ents, "post-disk")
+	absentStaysAbsent("post-disk")
 	vrt.Cover("krl-end")
 }
